@@ -167,8 +167,8 @@ Theorem attr_snprintf_contract_io_memory_refuted :
 Proof. exact attr_io_memory_witness. Qed.
 Print Assumptions attr_snprintf_contract_io_memory_refuted.
 Example attr_snprintf_contract_nonvacuous :
-  io_without_memory (AO HWLOC_OBJ_L2CACHE 0 0 262144 64 8 0 0 0 0 0 0 0 0 0 0 0 0 [] false [] [(lit "Inclusive", lit "1")]) /\
-  exists ops, attr_snprintf_ops (AO HWLOC_OBJ_L2CACHE 0 0 262144 64 8 0 0 0 0 0 0 0 0 0 0 0 0 [] false [] [(lit "Inclusive", lit "1")])
+  io_without_memory (AO HWLOC_OBJ_L2CACHE 0 0 262144 64 8 0 0 0 0 0 0 0 0 0 0 0 0 false [] [(lit "Inclusive", lit "1")]) /\
+  exists ops, attr_snprintf_ops (AO HWLOC_OBJ_L2CACHE 0 0 262144 64 8 0 0 0 0 0 0 0 0 0 0 0 0 false [] [(lit "Inclusive", lit "1")])
                                 [32] HWLOC_OBJ_SNPRINTF_FLAG_MORE_ATTRS = PrOk ops /\
               List.concat (map pop_text ops) = lit "size=256KiB linesize=64 ways=8 Inclusive=1".
 Proof. split; [intros [H|H]; discriminate H|eexists; split; vm_compute; reflexivity]. Qed.
@@ -216,3 +216,60 @@ Theorem osdev_print_terminates_before_fix_refuted :
 Proof. exact osdev_loop_witness. Qed.
 Print Assumptions osdev_print_terminates_before_fix_refuted.
 (* END osdev-loop *)
+
+(* ====================================================================== *)
+(* operations the property's functions go through (coverage extension) *)
+
+(* hwloc_type_sscanf_as_depth: never reads outside the string; the error of hwloc_type_sscanf or (type, depth) *)
+Theorem type_sscanf_as_depth_total :
+  forall levels tdepths s n, cstring s n -> bytes_ok s -> exists r, type_sscanf_as_depth_cur levels tdepths s = Ok r.
+Proof. exact (fun levels tdepths s n Hs Hb => type_sscanf_as_depth_total true levels tdepths s n Hs Hb (or_introl eq_refl)). Qed.
+Print Assumptions type_sscanf_as_depth_total.
+
+(* hwloc_get_type_depth_with_attr is hwloc_get_type_depth except for a Group with several Group levels and a
+   depth given through a full-size attribute union *)
+Theorem get_type_depth_with_attr_plain :
+  forall levels tdepths t attr asz,
+  t <> HWLOC_OBJ_GROUP \/ get_type_depth tdepths t <> HWLOC_TYPE_DEPTH_MULTIPLE \/ attr = None \/ attr = Some NEG1U \/ asz < SIZEOF_ATTR_UNION ->
+  get_type_depth_with_attr levels tdepths t attr asz = get_type_depth tdepths t.
+Proof. exact depth_with_attr_plain. Qed.
+Print Assumptions get_type_depth_with_attr_plain.
+
+(* round trip to the LEVEL: for every topology (any list of levels) with several Group levels, the text
+   "Group<gd>" printed for the Groups of level k parses back to (Group, k), for every depth value gd, provided no
+   other level holds Groups of that depth *)
+Theorem group_level_text_roundtrip :
+  forall levels tdepths gd k,
+  get_type_depth tdepths HWLOC_OBJ_GROUP = HWLOC_TYPE_DEPTH_MULTIPLE -> gd < UINT_MAX ->
+  nth_error levels k = Some (HWLOC_OBJ_GROUP, gd) ->
+  (forall j, nth_error levels j = Some (HWLOC_OBJ_GROUP, gd) -> j = k) ->
+  type_sscanf_as_depth_cur levels tdepths ((GROUP_TXT ++ dec gd) ++ [0]) = Ok (Some (HWLOC_OBJ_GROUP, Z.of_nat k)).
+Proof. exact (group_text_finds_its_level TYPE_MATCH_STOPS_AT_LITERAL_END). Qed.
+Print Assumptions group_level_text_roundtrip.
+Example group_level_text_roundtrip_nonvacuous :
+  type_sscanf_as_depth_cur [(0, 0); (13, 0); (13, 1); (4, 0)]
+     [0%Z; (-1)%Z; (-1)%Z; (-1)%Z; 3%Z; (-1)%Z; (-1)%Z; (-1)%Z; (-1)%Z; (-1)%Z; (-1)%Z; (-1)%Z; (-1)%Z; (-2)%Z; (-3)%Z; (-8)%Z; (-4)%Z; (-5)%Z; (-6)%Z; (-7)%Z]
+     (lit "Group1" ++ [0]) = Ok (Some (HWLOC_OBJ_GROUP, 2%Z)).
+Proof. vm_compute. reflexivity. Qed.
+
+(* memory tier names: every name hwloc_memory_tier_type_snprintf can return is accepted by _sscanf, gives back
+   the value (CXL alone is printed as, and parsed to, CXL|DRAM) and prints as the same name again *)
+Theorem memory_tier_name_roundtrip :
+  forall t n, tier_type_snprintf t = Some n ->
+  tier_type_sscanf (cstr n) = Ok (tier_canon t) /\ tier_type_snprintf (tier_canon t) = Some n.
+Proof. exact tier_roundtrip. Qed.
+Print Assumptions memory_tier_name_roundtrip.
+Example memory_tier_name_roundtrip_nonvacuous : tier_type_snprintf TIER_CXL = Some "CXL-DRAM".
+Proof. reflexivity. Qed.
+(* for any NUL-terminated string: no read outside it, and the result is 0 or a value the printer names *)
+Theorem memory_tier_sscanf_total :
+  forall s n, cstring s n -> exists v, tier_type_sscanf s = Ok v /\ (v = 0 \/ exists name, tier_type_snprintf v = Some name).
+Proof. exact tier_sscanf_total. Qed.
+Print Assumptions memory_tier_sscanf_total.
+
+(* hwloc_pci_class_string: for EVERY class id the name is 1..27 printable bytes without blank or parenthesis
+   (so "class=%04x(%s)" stays parseable and fits the fixed-size buffers of hwloc_obj_attr_snprintf) *)
+Theorem pci_class_string_wellformed :
+  forall class_id, class_name_ok (pci_class_string class_id) = true.
+Proof. exact TypeNamesProofs.pci_class_string_wellformed. Qed.
+Print Assumptions pci_class_string_wellformed.
